@@ -93,6 +93,53 @@ def case_swaps_mt(cid, nv, tables, positions, rng, orders=(), gc_first=False):
     return (ddgen.header(cid, "mtbdd"), ops)
 
 
+T3_BIN = ["T3AND", "T3OR", "T3XOR", "T3EQUIV", "T3NAND", "T3NOR", "T3IMP", "T3IMPS"]
+
+
+def case_swaps_tdd(cid, nv, nops, positions, rng, orders=(), gc_first=False, drop_vars=False, threads=1):
+    """TDD (ternary nodes): functions built from the variables and the three constants by random three-valued
+    operators; single level swaps and whole reorderings between snapshots, replayed by the driver on the
+    extracted level_swap_t / set_var_order_model_t; T3EVAL = eval over all 3^n ternary assignments"""
+    ops = [f"VARS {nv}"]
+    slots = []
+    for v in range(nv):
+        ops.append(f"T3VAR h{v} {v}"); slots.append(v)
+    for k, c in enumerate("fut"):
+        ops.append(f"T3CONST h{nv + k} {c}"); slots.append(nv + k)
+    nxt = nv + 3
+    made = []
+    for _ in range(nops):
+        r = rng.random()
+        if r < 0.1:
+            ops.append(f"T3NOT h{nxt} h{rng.choice(slots)}")
+        elif r < 0.3:
+            ops.append(f"T3ITE h{nxt} h{rng.choice(slots)} h{rng.choice(slots)} h{rng.choice(slots)}")
+        else:
+            ops.append(f"{rng.choice(T3_BIN)} h{nxt} h{rng.choice(slots)} h{rng.choice(slots)}")
+        slots.append(nxt); made.append(nxt); nxt += 1
+    # some intermediate results (and, if asked, the variable handles) are dropped: nodes lose references
+    for h in rng.sample(made, len(made) // 3):
+        ops.append(f"DROP h{h}"); slots.remove(h)
+    if drop_vars:
+        for v in rng.sample(range(nv), rng.randrange(1, nv + 1)):
+            ops.append(f"DROP h{v}"); slots.remove(v)
+    if gc_first:
+        ops.append("GC")
+    ops.append("SNAP")
+    for p in positions:
+        ops.append(f"LEVELDOWN {p}")
+        ops.append("SNAP")
+    for o in orders:
+        ops.append(f"{rng.choice(['ORDER', 'ORDERSEQ'])} " + " ".join(map(str, o)))
+        ops.append("SNAP")
+    live = [h for h in slots if h >= nv + 3]
+    for h in rng.sample(live, min(len(live), 5)):
+        ops.append(f"T3EVAL h{h}")
+    ops.append("SNAP")
+    ops += ["DROPALL", "GC", "SNAP"]
+    return (ddgen.header(cid, "tdd", threads=threads), ops)
+
+
 def gen_cases(ctx):
     rng = random.Random(ctx.seed * 7919 + 8)
     thorough = ctx.tier == "thorough"
@@ -155,6 +202,16 @@ def gen_cases(ctx):
             ords.append(p[: rng.randrange(2, nv + 1)])
         cases.append(case_swaps_mt(f"m{cid}", nv, tabs, [rng.randrange(nv - 1) for _ in range(rng.randrange(1, 8))], rng,
                                    orders=ords, gc_first=rng.random() < 0.6)); cid += 1
+    # TDD: random three-valued expressions over 2..5 variables; swaps and reorderings replayed on the ternary model
+    for k in range(160 if thorough else 36):
+        nv = rng.randrange(2, 6)
+        ords = []
+        for _ in range(rng.randrange(0, 4)):
+            p = list(range(nv)); rng.shuffle(p)
+            ords.append(p[: rng.randrange(2, nv + 1)])
+        cases.append(case_swaps_tdd(f"t{cid}", nv, rng.randrange(2, 5 * nv), [rng.randrange(nv - 1) for _ in range(rng.randrange(1, 8))], rng,
+                                    orders=ords, gc_first=rng.random() < 0.6, drop_vars=rng.random() < 0.25,
+                                    threads=rng.choice([1, 1, 4]))); cid += 1
     return cases
 
 
